@@ -1,5 +1,6 @@
 pub mod c03;
 pub mod c04;
+pub mod c07;
 pub mod c10;
 pub mod c11;
 pub mod c12;
@@ -14,7 +15,7 @@ pub mod gen;
 use crate::prop::Prop;
 
 pub fn all() -> Vec<&'static dyn Prop> {
-    vec![&c03::C03, &c04::C04, &c04::C05, &c10::C10, &c11::C11, &c12::C12, &c13::C13, &c14::C14, &c15::C15, &c18::C18, &c19::C19]
+    vec![&c03::C03, &c04::C04, &c04::C05, &c07::C07, &c10::C10, &c11::C11, &c12::C12, &c13::C13, &c14::C14, &c15::C15, &c18::C18, &c19::C19]
 }
 
 pub fn by_id(id: &str) -> Option<&'static dyn Prop> {
